@@ -497,6 +497,8 @@ class World:
         mgr = self.mgrs[which]
         ctl = self.ctl
         ctl.step_no += 1
+        if ctl.crash_at_sw is not None or ctl.crash_at_pw is not None:
+            self.step_snap = {t: dict(v) for t, v in self.sd.items()}      # rows as they stood when this step began (C07's crash-instant invariant)
         if CLOCK.now < self.next_at[which]:
             CLOCK.now = self.next_at[which]
         CLOCK.now += 0.0005
